@@ -161,6 +161,16 @@ def run(cx):
                 inst.violation(b.path, "DisconnectAck", "a disconnect request is not acknowledged in all of Active, Closing and Closed")
 
 
+_run_core = run
+
+
+def run(cx):
+    _run_core(cx)
+    from props.shared import leave_implies_terminal, dispatch_table
+    dispatch_table(cx, "C09.e", only={"DisconnectFrame", "DisconnectAckFrame"})
+    leave_implies_terminal(cx, "C09.f")
+
+
 SELFTEST = [
     {"name": "treat DisconnectMode::Flush like Now (client)",
      "edits": [{"file": "src/client/mod.rs", "old": "Some(DisconnectMode::Flush) => !state.half_connection.is_send_pending(),", "new": "Some(DisconnectMode::Flush) => true,"}],
